@@ -56,6 +56,17 @@ theorem C01_call_sites_cover :
     combos 3 = [(false, false), (false, true), (true, false)] ∧
     sites.length = 11 := by decide +kernel
 
+/-- the call of the `else` branch (`c1 ≥ c2`, seen from the second cell) that corresponds to a call of the `c1 < c2` branch: cells, particle
+lists and acts-on arguments change places, the direction changes sign; the guard stays with the cell whose FREE particles take part -/
+def mirror (st : Site) : Site :=
+  { st with branch := 3, dir := -st.dir, cellA := st.cellB, cellB := st.cellA, la := st.lb, lb := st.la, aoF := st.aoS, aoS := st.aoF }
+
+/-- C13: whichever of the two colours of a pair is "first" (that depends on the order in which the species are declared), the same
+combinations of particle lists are paired with the roles exchanged: the `c1 ≥ c2` branch is the mirror image of the `c1 < c2` branch.
+This is the structural reason why renumbering the species does not change the set of pairs. -/
+theorem C13_call_sites_mirror :
+    (sites.filter (fun st => st.branch == 2)).map mirror = sites.filter (fun st => st.branch == 3) := by decide +kernel
+
 /-- C20: the OpenMP version of `CellLink::createDistances` visits exactly the same call sites (lists, target, direction, flags) in the
 same order as the serial version -/
 theorem C20_create_distances_same_sites : sitesOmp = sites := by decide +kernel
